@@ -26,6 +26,9 @@ def main():
     for p in sorted(glob.glob("/verif/seeded/*/patch.diff")):
         d = os.path.dirname(p)
         meta = json.load(open(os.path.join(d, "meta.json")))
+        if meta.get("neutralised_by"):
+            print("%-45s neutralised by a later repair: %s" % ("seeded-" + os.path.basename(d), meta["neutralised_by"][:60]))
+            continue
         rebased = os.path.join(d, "patch.rebased.diff")
         items.append(("seeded-" + os.path.basename(d), rebased if os.path.exists(rebased) else p, meta["breaks"]))
     if args:
